@@ -184,6 +184,15 @@ class WindowedWeightedCalibration(
             return weighted_calibration, windowed_weighted_calibration
         return windowed_weighted_calibration
 
+    def reset(self: TWindowedWeightedCalibration) -> TWindowedWeightedCalibration:
+        """
+        Reset the metric state variables to their default value and rewind
+        the window cursor, which is not a registered state.
+        """
+        super().reset()
+        self.next_inserted = 0
+        return self
+
     @torch.inference_mode()
     def merge_state(
         self: TWindowedWeightedCalibration,
